@@ -9,11 +9,11 @@ input at hand and is ARBITRARY in every theorem below. What ties the machine to 
 correspondence run, are the theorems over the regenerated tables `Facts.fatalSites` / `Facts.panicSites`:
 every exit site that can be reached after main's first call of notedownSrc is one of the four the machine
 models (three I/O errors in notedownSrc, the Clean error in main), so every other `logx.Fatal*`/`os.Exit`
-precedes the first write; and the only explicit `panic(` is the one recorded as finding F_panic_valuerecv.
+precedes the first write; and the source contains no explicit `panic(`.
 
 Stated plainly: absence of Go *runtime* panics (nil dereference, failed type assertion, index out of range) is
 not provable over this model — `Input.gen = .panic` is an input. That half of the property rests on the
-damaged-input correspondence (tools/props/c18.py); three such panics are recorded as findings.
+damaged-input correspondence (tools/props/c18.py); the six panics it found were repaired in /repo.
 -/
 set_option linter.unusedSimpArgs false
 namespace ShootVerif.Phases
@@ -73,12 +73,12 @@ theorem C18_model_meets_spec (i : Input) (h : WF i = true) : specOK (run i) = tr
   · exact Or.inl hok
   · exact Or.inr (hnc hok)
 
-/-- every damage class shoot diagnoses itself (all but the finding classes) is handled cleanly,
+/-- every damage class shoot diagnoses itself is handled cleanly,
     for every sub-command and whatever the command line would have written -/
-theorem C18_diagnosed_classes_clean (cmd : Cmd) (d : Damage) (outs stale : List String) (h : region d = .WF) :
+theorem C18_diagnosed_classes_clean (cmd : Cmd) (d : Damage) (outs stale : List String) :
     specOK (run (classify cmd d outs stale)) = true := by
   apply C18_model_meets_spec
-  cases d <;> cases cmd <;> first | rfl | (simp [region] at h)
+  cases d <;> cases cmd <;> rfl
 
 /-! ### second tie: the regenerated tables -/
 
@@ -95,10 +95,8 @@ def modelledPostSites : List (String × String × String × Bool) :=
 theorem C18_fatal_sites_precede_write :
     Facts.fatalSites.filter (fun s => s.2.2.2) = modelledPostSites := by decide
 
-/-- no explicit `panic(` can be reached after the first write, and the only explicit panic of the source is the
-    one in mapper.parseManual (finding region F_panic_valuerecv) -/
-theorem C18_panic_sites_classified :
-    Facts.panicSites = [("mapper", "parseManual", "panic", false)] := by decide
+/-- the source contains no explicit `panic(` at all (the one in mapper.parseManual went with /repo 58408b2) -/
+theorem C18_panic_sites_classified : Facts.panicSites = [] := by decide
 
 /-- before the first write, exits come in exactly two flavours: os.Exit (only in main and ParseCommonFlags:
     usage, exit 2) and logx.Fatal* (exit 1) -/
@@ -115,31 +113,13 @@ example : run (classify .new .none ["a.shootnew.go"] ["a.shootnew.t.go"])
     = (.ok, [.write "a.shootnew.go", .remove "a.shootnew.t.go"]) := by decide
 example : WF { outputs := ["x"], removes := ["y"] } = true := by decide
 
-/-! ### witnesses of the finding regions -/
+/-! ### what is NOT proved: a Go runtime panic in a phase is an input of the machine, and it violates the property -/
 
-/-- (a Clean error — now only a real I/O error, `firstLine` tolerates a missing newline since /repo 63484d4 — is the one
-    modelled way to exit 1 after the writes; it is excluded by the hypotheses of `C18_no_change_on_failure`) -/
+example : specOK (run { gen := .panic }) = false ∧ (run { gen := .panic }).2 = [] := by decide
+
+/-- (a Clean error — only a real I/O error since /repo 63484d4 — is the one modelled way to exit 1 after the writes;
+    it is excluded by the hypotheses of `C18_no_change_on_failure`) -/
 example : run { outputs := ["a.shootnew.go"], removes := ["z.shootnew.old.go"], cleanErr := some 0 }
     = (.fatal, [.write "a.shootnew.go"]) := by decide
-
-theorem C18_F_panic_valuerecv_witness :
-    region .valueRecv = .F_panic_valuerecv ∧ run (classify .map .valueRecv ["a.shootmap.order.go"] []) = (.panic, []) ∧
-    specOK (run (classify .map .valueRecv ["a.shootmap.order.go"] [])) = false := by decide
-
-theorem C18_F_panic_unnamed_witness :
-    region .manualUnnamed = .F_panic_unnamed ∧ run (classify .map .manualUnnamed ["a.shootmap.order.go"] []) = (.panic, []) ∧
-    specOK (run (classify .map .manualUnnamed ["a.shootmap.order.go"] [])) = false := by decide
-
-theorem C18_F_panic_nobody_witness :
-    region .manualNoBody = .F_panic_nobody ∧ run (classify .map .manualNoBody ["a.shootmap.order.go"] []) = (.panic, []) ∧
-    specOK (run (classify .map .manualNoBody ["a.shootmap.order.go"] [])) = false := by decide
-
-theorem C18_F_panic_setteriface_witness :
-    region .setterIface = .F_panic_setteriface ∧ run (classify .new .setterIface ["a.shootnew.order.go"] []) = (.panic, []) ∧
-    specOK (run (classify .new .setterIface ["a.shootnew.order.go"] [])) = false := by decide
-
-theorem C18_F_panic_univ_witness :
-    region .univEmbed = .F_panic_univ ∧ run (classify .rest .univEmbed ["a.shootrest.go"] []) = (.panic, []) ∧
-    specOK (run (classify .rest .univEmbed ["a.shootrest.go"] [])) = false := by decide
 
 end ShootVerif.Phases
